@@ -143,17 +143,7 @@ fn header_fields(ascii_only: bool) {
     } else if c.is_some() {
         assert!(same(&c, 20, 24));
     }
-    // two headers that differ only in date/time words differ in date_time (field wiring; exact
-    // instant is C08's subject)
-    let d = be32(&b, 12);
-    let ms = be32(&b, 16);
-    if d >= 1 && d <= 65535 && ms < 86_400_000 {
-        let dt = match h.date_time() {
-            Some(x) => x,
-            None => panic!("C05: in-range header date/time gave None"),
-        };
-        assert!(dt.timestamp_millis() == (d as i64 - 1) * 86_400_000 + ms as i64, "C05: header date-time");
-    }
+    // the date-time accessor of this header is decided in C08 (c08_vol_header_exact / _total)
     wit!(ascii(0, 9) && b[0] == b'A' && t.is_some());
     wit!(ascii_only || (!ascii(20, 24) && c.is_none()));
     core::mem::forget((t, e, c));
